@@ -264,3 +264,7 @@ Definition legal_entry (kv : string * string) : Prop :=
 (* the enforcement map of a named level with an override, when GetVerificationLevel accepts it *)
 Definition level_for (name : string) (ov : amap) : option level :=
   match get_level name ov with inr (_, enf) => Some (level_of enf) | inl _ => None end.
+
+(* what the model is proved to satisfy: the implementation's exact acceptance rule and the shape *)
+Definition spec_impl (lvl : level) (sc : scenario) (o : obs) : bool :=
+  Bool.eqb (negb (accepted o)) (should_fail_impl lvl sc) && spec_shape lvl sc o.
